@@ -157,71 +157,73 @@ Definition enc_prim (p : prim) : bytes :=
   | PInt z | PBig z => T_INTEGER :: nv_write_varbytes (neo_of_Z z)   (* both written with integerType *)
   end.
 
-(** the final test of Serialize: sink.Size() > MAX_BYTEARRAY_SIZE *)
-Definition check_size (s : bytes) : rs :=
-  if max_ser_size <? N.of_nat (length s) then rs_fail ESize else rs_ret s.
+(** The sink: [base] bytes were in it before the outermost call (their content is irrelevant to
+    Serialize, only sink.Size() looks at them), [s] is what has been written since.
+    The final test of Serialize: sink.Size() > MAX_BYTEARRAY_SIZE *)
+Definition check_size (base : N) (s : bytes) : rs :=
+  if max_ser_size <? base + N.of_nat (length s) then rs_fail ESize else rs_ret s.
 
-(** [s] is the content of the sink when the call starts. Fuel counts nested Go calls of Serialize
-    (fuel 0 = "Go would have to recurse deeper"). The detector runs at EVERY call, from depth 0. *)
-Fixpoint h_serialize (h : heap) (fuel : nat) (v : hval) (s : bytes) : rs :=
+(** the element loops of Serialize / BuildParamToNative ([rec] = the nested call) *)
+Fixpoint ser_list (rec : hval -> bytes -> rs) (l : list hval) (s : bytes) : rs :=
+  match l with
+  | [] => rs_ret s
+  | x :: r => rs_bind (rec x s) (ser_list rec r)
+  end.
+
+(** the entry loop of Serialize over the sorted keys: key, then value *)
+Fixpoint ser_entries (rec : hval -> bytes -> rs) (l : list (prim * hval)) (s : bytes) : rs :=
+  match l with
+  | [] => rs_ret s
+  | e :: r => rs_bind (rec (HPrim (fst e)) s) (fun s1 => rs_bind (rec (snd e) s1) (ser_entries rec r))
+  end.
+
+(** what Serialize does after the detector answered false *)
+Definition ser_body (h : heap) (base : N) (rec : hval -> bytes -> rs) (v : hval) (s : bytes) : rs :=
+  match v with
+  | HPrim p => check_size base (s ++ enc_prim p)
+  | HArr a =>
+    let l := get_list h a in
+    rs_bind (ser_list rec l (s ++ T_ARRAY :: nv_write_varuint (N.of_nat (length l)))) (check_size base)
+  | HStruct a =>
+    let l := get_list h a in
+    rs_bind (ser_list rec l (s ++ T_STRUCT :: nv_write_varuint (N.of_nat (length l)))) (check_size base)
+  | HMap a =>
+    let m := get_map h a in
+    rs_bind (ser_entries rec (sort_entries m) (s ++ T_MAP :: nv_write_varuint (N.of_nat (length m)))) (check_size base)
+  | HInterop => rs_fail EInterop
+  end.
+
+(** one call: the detector first (from depth 0, at EVERY call), then the body *)
+Definition guarded (h : heap) (v : hval) (body : rs) : rs :=
+  let d := detect_top h v in
+  rs_alt (if snd d then rs_fail ECircular else rs_none) (if fst d then body else rs_none).
+
+(** [s] is what the sink holds (after the first [base] bytes) when the call starts. Fuel counts
+    nested Go calls of Serialize (fuel 0 = "Go would have to recurse deeper"). *)
+Fixpoint h_serialize (h : heap) (base : N) (fuel : nat) (v : hval) (s : bytes) : rs :=
   match fuel with
   | O => rs_oof
-  | S f =>
-    let d := detect_top h v in
-    let ser_list := fix ser_list (l : list hval) (s : bytes) : rs :=
-      match l with
-      | [] => rs_ret s
-      | x :: r => rs_bind (h_serialize h f x s) (ser_list r)
-      end in
-    let ser_entries := fix ser_entries (l : list (prim * hval)) (s : bytes) : rs :=
-      match l with
-      | [] => rs_ret s
-      | (k, x) :: r =>
-        rs_bind (h_serialize h f (HPrim k) s) (fun s1 => rs_bind (h_serialize h f x s1) (ser_entries r))
-      end in
-    rs_alt (if snd d then rs_fail ECircular else rs_none)
-      (if fst d then
-        match v with
-        | HPrim p => check_size (s ++ enc_prim p)
-        | HArr a =>
-          let l := get_list h a in
-          rs_bind (ser_list l (s ++ T_ARRAY :: nv_write_varuint (N.of_nat (length l)))) check_size
-        | HStruct a =>
-          let l := get_list h a in
-          rs_bind (ser_list l (s ++ T_STRUCT :: nv_write_varuint (N.of_nat (length l)))) check_size
-        | HMap a =>
-          let m := get_map h a in
-          rs_bind (ser_entries (sort_entries m) (s ++ T_MAP :: nv_write_varuint (N.of_nat (length m)))) check_size
-        | HInterop => rs_fail EInterop
-        end
-       else rs_none)
+  | S f => guarded h v (ser_body h base (h_serialize h base f) v s)
   end.
 
 (** * BuildParamToNative *)
+Definition build_body (h : heap) (rec : hval -> bytes -> rs) (v : hval) (s : bytes) : rs :=
+  match v with
+  | HPrim (PBytes b) => rs_ret (s ++ nv_write_varbytes b)
+  | HPrim (PBool b) => rs_ret (s ++ [if b then 1 else 0])
+  | HPrim (PInt z) | HPrim (PBig z) => rs_ret (s ++ nv_write_varbytes (neo_of_Z z))
+  | HArr a =>
+    let l := get_list h a in
+    ser_list rec l (s ++ nv_write_varbytes (neo_of_Z (Z.of_nat (length l))))
+  | HStruct a => ser_list rec (get_list h a) s
+  | HMap _ => rs_fail EBadType
+  | HInterop => rs_fail EBadType
+  end.
+
 Fixpoint h_build (h : heap) (fuel : nat) (v : hval) (s : bytes) : rs :=
   match fuel with
   | O => rs_oof
-  | S f =>
-    let d := detect_top h v in
-    let build_list := fix build_list (l : list hval) (s : bytes) : rs :=
-      match l with
-      | [] => rs_ret s
-      | x :: r => rs_bind (h_build h f x s) (build_list r)
-      end in
-    rs_alt (if snd d then rs_fail ECircular else rs_none)
-      (if fst d then
-        match v with
-        | HPrim (PBytes b) => rs_ret (s ++ nv_write_varbytes b)
-        | HPrim (PBool b) => rs_ret (s ++ [if b then 1 else 0])
-        | HPrim (PInt z) | HPrim (PBig z) => rs_ret (s ++ nv_write_varbytes (neo_of_Z z))
-        | HArr a =>
-          let l := get_list h a in
-          build_list l (s ++ nv_write_varbytes (neo_of_Z (Z.of_nat (length l))))
-        | HStruct a => build_list (get_list h a) s
-        | HMap _ => rs_fail EBadType
-        | HInterop => rs_fail EBadType
-        end
-       else rs_none)
+  | S f => guarded h v (build_body h (h_build h f) v s)
   end.
 
 (** * Unfolding an acyclic heap value to a tree (specification side) *)
